@@ -353,3 +353,176 @@ def evict_native(P, ks, a):
         W.minimize()
         if any(o._p_state != GHOST for o in W.nodes() if not o._p_changed):
             fail('a node cannot be evicted after the failing call', ctx)
+
+
+# ---------------------------------------------------------------------------
+# C08: two concurrent transactions on one committed tree
+
+_DEL = object()
+
+
+def path_nodes(jar, root, key, cl, is_set):
+    """oids of the stored interior nodes a write of `key` descends through,
+    computed from the stored states with the model's comparison (independent of
+    the implementation's own search)."""
+    tree_cls = cl['TreeSet' if is_set else 'BTree']
+    out = []
+    node = root
+    while type(node) is tree_cls:
+        if node._p_oid is not None:
+            out.append(node._p_oid)
+        stt = node.__getstate__()
+        if stt is None or len(stt) == 1:
+            break
+        items = stt[0]
+        kids, seps = items[::2], items[1::2]
+        i = 0
+        while i < len(seps) and not klt(key, seps[i]):
+            i += 1
+        node = kids[i]
+    return out
+
+
+def txn_ops(is_set):
+    return 3        # 0: insert / set value, 1: delete, 2: clear
+
+
+def run_txn(t, m, op, k, is_set, jar, cl, kind, ctx, who):
+    """perform one operation; -> (net change dict as list of (key, value|_DEL), logged readCurrent oids)"""
+    before = m.copy()
+    n0 = len(jar.log)
+    want_path = path_nodes(jar, t, k, cl, is_set) if op in (0, 1) else None
+    n0 = len(jar.log)
+    try:
+        with keys_mod.live():
+            if op == 0:
+                if is_set:
+                    t.add(k)
+                    m.set(k, None)
+                else:
+                    t[k] = VNEW + who
+                    m.set(k, VNEW + who)
+            elif op == 1:
+                try:
+                    if is_set:
+                        t.remove(k)
+                    else:
+                        del t[k]
+                except KeyError:
+                    pass
+                m.delete(k)
+            else:
+                t.clear()
+                m.items = []
+    except Exception as e:          # noqa
+        fail('an operation inside a transaction raised %s' % type(e).__name__, ctx)
+    rc = [o for (w, o) in jar.log[n0:] if w == 'readCurrent']
+    if want_path is not None:
+        for oid in want_path:
+            if oid not in rc:
+                fail('a write did not declare an interior node it descended through as a read dependency', dict(ctx, who=who, op=op))
+    net = []
+    for kk_, v in before.pairs():
+        if not m.has(kk_):
+            net.append((kk_, _DEL))
+        elif not is_set and not (m.get(kk_) is v or m.get(kk_) == v):
+            net.append((kk_, m.get(kk_)))
+    for kk_, v in m.pairs():
+        if not before.has(kk_):
+            net.append((kk_, v))
+    return net
+
+
+def apply_net(base, net):
+    r = base.copy()
+    for k, v in net:
+        if v is _DEL:
+            r.delete(k)
+        else:
+            r.set(k, v)
+    return r
+
+
+def apply_op(model, op, k, is_set, who):
+    r = model.copy()
+    if op == 0:
+        r.set(k, None if is_set else VNEW + who)
+    elif op == 1:
+        r.delete(k)
+    else:
+        r.items = []
+    return r
+
+
+def same_model(c, mm, is_set):
+    return same_keys(c, mm.keys()) if is_set else same_pairs(c, mm.pairs())
+
+
+def txn_pair(P, ks, a):
+    op1 = common.choose(a['op1'], 3)
+    op2 = common.choose(a['op2'], 3)
+    with common.untraced():
+        _txn_pair(P, ks, a, op1, op2)
+
+
+def _txn_pair(P, ks, a, op1, op2):
+    kind = P['kind']
+    is_set = kind in ('TreeSet', 'Set')
+    cl = h_step.classes(P)
+    keys_mod.reset()
+    kk = [K(k, i) for i, k in enumerate(ks)]
+    x, y = K(a['x']), K(a['y'])
+    ctx = {'harness': 'txn_pair', 'impl': P['impl'], 'kind': kind, 'op1': op1, 'op2': op2}
+    st, W, t0, oid, base = stored_tree(P, ks, kk)
+    J1, J2 = Jar(st), Jar(st)
+    t1, t2 = J1.get(oid, cl[kind]), J2.get(oid, cl[kind])
+    m1, m2 = base.copy(), base.copy()
+    # pure reads declare nothing
+    n0 = len(J1.log)
+    with keys_mod.live():
+        (x in t1), len(t1), list(t1.keys(x, y)), bool(t1)
+        if not is_set:
+            t1.get(y)
+        for _ in t1:
+            pass
+    if any(w == 'readCurrent' for (w, o) in J1.log[n0:]):
+        fail('a pure read declared a read dependency', ctx)
+    net1 = run_txn(t1, m1, op1, x, is_set, J1, cl, kind, ctx, 1)
+    net2 = run_txn(t2, m2, op2, y, is_set, J2, cl, kind, ctx, 2)
+    try:
+        J1.commit()
+    except Exception as e:          # noqa
+        fail('the first commit raised %s' % type(e).__name__, ctx)
+        return
+    try:
+        J2.commit()
+        outcome = 'committed'
+    except ConflictError:
+        outcome = 'conflict'
+    except Exception as e:          # noqa
+        fail('the second commit raised %s (not a conflict error)' % type(e).__name__, ctx)
+        return
+    ctx['outcome'] = outcome
+    R = Jar(st)
+    r = R.get(oid, cl[kind])
+    c = read_all(r, is_set, 'third connection', ctx)
+    if c is None:
+        return
+    if outcome == 'conflict':
+        if not same_model(c, m1, is_set):
+            fail('after a refused second commit the stored tree is not what the first transaction committed', ctx)
+        check_view(r, m1, P, cl, is_set, 'stored tree after the refused commit', ctx)
+        return
+    serial = apply_op(m1, op2, y, is_set, 2)
+    k1 = [k for k, _ in net1]
+    disjoint = not any(keq(k, q) for k, _ in net2 for q in k1)
+    merged = apply_net(apply_net(base, net1), net2) if disjoint else None
+    if same_model(c, serial, is_set):
+        final = serial
+    elif merged is not None and same_model(c, merged, is_set):
+        final = merged
+    else:
+        fail('both commits succeeded but the stored contents are neither the serial result nor the disjoint merge',
+             ctx, common.show(c), common.show(serial.pairs()), common.show(merged.pairs()) if merged else None)
+        return
+    check_view(r, final, P, cl, is_set, 'stored tree after both commits', ctx)
